@@ -308,7 +308,15 @@ func c09Check(cs c09Case) (out core.Outcome, applicable bool, remote int) {
 		}
 		return true
 	})
-	for id, p := range want {
+	var ordered []*ast.Ident
+	ast.Inspect(af, func(n ast.Node) bool {
+		if id, ok := n.(*ast.Ident); ok {
+			ordered = append(ordered, id)
+		}
+		return true
+	})
+	for _, id := range ordered {
+		p := want[id]
 		if p != "" {
 			remote++
 		}
